@@ -253,6 +253,39 @@ class AM3(AM):
         return AM.__aexit__(self, *exc)
 
 
+GCM_CODES = set()
+
+
+class Inner:
+    """the manager a generator-based manager's generator holds itself (no part of the specification's history)"""
+
+    def __init__(self, i):
+        self.i = i
+
+    def __bool__(self):
+        return False
+
+    def __enter__(self):
+        return self
+
+    def __exit__(self, *exc):
+        return False
+
+
+def check_gcm_frames(checker, frames, where):
+    """frames of the sync generator-based managers, wherever they appear: contexts == [their own Inner manager]"""
+    for f in frames:
+        if f.pyframe.f_code in GCM_CODES:
+            cs = list(f.contexts)
+            ok = (len(cs) == 1 and isinstance(cs[0].obj, Inner) and not cs[0].is_exiting and not cs[0].is_async
+                  and cs[0].obj is f.pyframe.f_locals.get("_inner"))
+            # before the generator has entered its with block (the frame is at its very start) there is nothing to report
+            if not ok and not (not cs and f.pyframe.f_locals.get("_inner") is None):
+                checker.bad("contexts of the generator frame of a generator-based manager (%s): %s, expected its own manager"
+                            % (where, [(type(c.obj).__name__, c.is_exiting) for c in cs]))
+                return
+
+
 def _gcm_enter(env, i):
     ev = env.expect("enter", i)
     env.inner_probe(ev, "enter", None)
@@ -272,25 +305,29 @@ def make_gcm(env, i, shape, is_async):
     if not is_async:
         @contextlib.contextmanager
         def g():
-            _gcm_enter(env, i)
-            if env.r.enter_raises[i]:
-                env.expect("enter_raised", i)
-                raise Boom()
-            env.expect("entered", i)
-            try:
-                yield build_value(shape, holder[0])
-            except BaseException:
-                _gcm_exit(env, i, True)
+            # the generator holds a manager of its own for its whole life: wherever this frame shows up (inner stack of
+            # the context, or the main frame series while the manager exits) its contexts are exactly [that manager]
+            with Inner(i) as _inner:  # noqa: F841
+                _gcm_enter(env, i)
+                if env.r.enter_raises[i]:
+                    env.expect("enter_raised", i)
+                    raise Boom()
+                env.expect("entered", i)
+                try:
+                    yield build_value(shape, holder[0])
+                except BaseException:
+                    _gcm_exit(env, i, True)
+                    env.expect("exited", i)
+                    if env.r.exit_raises[i]:
+                        raise Boom()
+                    if i % 3 == 0:
+                        return
+                    raise
+                _gcm_exit(env, i, False)
                 env.expect("exited", i)
                 if env.r.exit_raises[i]:
                     raise Boom()
-                if i % 3 == 0:
-                    return
-                raise
-            _gcm_exit(env, i, False)
-            env.expect("exited", i)
-            if env.r.exit_raises[i]:
-                raise Boom()
+        GCM_CODES.add(g.__wrapped__.__code__)
     else:
         @contextlib.asynccontextmanager
         async def g():
@@ -319,9 +356,21 @@ def make_gcm(env, i, shape, is_async):
             env.expect("exited", i)
             if env.r.exit_raises[i]:
                 raise Boom()
+    if not is_async and not _UCG_REGISTERED:
+        # the SYNC generator-based managers have a (do-nothing) unwrap_context_generator hook: for an exiting one the
+        # contextlib glue then makes a nested extract_outermost() call in the middle of the outer extraction
+        stackscope.unwrap_context_generator.register(g.__wrapped__)(_noop_ucg)
+        _UCG_REGISTERED.append(True)
     m = g()
     holder.append(m)
     return m
+
+
+_UCG_REGISTERED = []
+
+
+def _noop_ucg(frame, context):
+    return None
 
 
 # ------------------------------------------------------------------ comparison
@@ -418,6 +467,11 @@ class Checker:
                 self.bad("lowlevel.contexts_active_in_frame disagrees with Frame.contexts", low=lowobs, **info)
         except BaseException as ex:
             self.bad("contexts_active_in_frame raised %r" % (ex,), **info)
+        if self.mode not in ("referents", "trickfault"):
+            check_gcm_frames(self, st.frames[1:], "suspended target, main frame series")
+            for c in fr.contexts:
+                if c.inner_stack is not None:
+                    check_gcm_frames(self, c.inner_stack.frames, "inner stack")
         return st
 
     def check_released(self, obj):
@@ -572,6 +626,7 @@ class Checker:
             self.bad("contexts differ", **info)
         else:
             self.check_metadata(env, st.frames[0], info)
+            check_gcm_frames(self, st.frames[1:], "running, inward of the program frame")
 
 
 # ------------------------------------------------------------------ execution
